@@ -85,7 +85,7 @@ def unstable_lines(a, b):
     return out
 
 
-def run_scenario(ctx, name, driver, lines, P, K, timeout=120, late_us=0):
+def run_scenario(ctx, name, driver, lines, P, K, timeout=120, late_us=0, defer=0):
     shim = buildlib.build_shim()
     exe = buildlib.build_driver(driver)
     cf = fw.write_cases(ctx, "c05_%s_%d.cases" % (name, P), lines)
@@ -101,6 +101,7 @@ def run_scenario(ctx, name, driver, lines, P, K, timeout=120, late_us=0):
         seed = ctx.seed * 1000 + k + 1
         env = {"LD_PRELOAD": shim, "VERIF_SCHED_SEED": str(seed)}
         if late_us: env["VERIF_SCHED_LATE_US"] = str(late_us)
+        if defer: env["VERIF_SCHED_DEFER"] = "1"
         rc, out, err = buildlib.run_driver(exe, cf, nprocs=P, timeout=timeout, extra_env=env)
         ctx.evaluations += 1
         ctx.nontrivial.add("%s/P%d/seed%d" % (name, P, seed))
@@ -227,6 +228,9 @@ def run(ctx):
             rp.append(" ".join(toks))
         run_scenario(ctx, "repart", "drv_repart", rp, P, K)
         run_scenario(ctx, "repart_late", "drv_repart", rp[:6], P, max(2, K // 2), late_us=20000)      # some row messages sent 20 ms late
+        # half of the nonblocking sends are buffered and only put on the wire after the sender has left its next collective
+        # (an MPI library may do that: a collective says nothing about the delivery of earlier point-to-point messages)
+        run_scenario(ctx, "repart_defer", "drv_repart", rp[:6], P, max(2, K // 2), late_us=20000, defer=1)
     # distributed MIS-2 / aggregation on a ladder whose two rails live on different ranks: > 1000 boundary rows per exchange
     R = ctx.scale(1500, 3000); nv = 2 * R
     tr = [(i, i, 4) for i in range(nv)]
